@@ -215,8 +215,8 @@ def generate(ctx):
         if not mine:
             continue
         yield 'factors', {'Z': Z, 'mode': 'nodes'}
-        yield 'factors', {'Z': Z, 'mode': 'midpoints', 'sample': None if ctx.thorough() else 60, 'seed': _seed(ctx)}
-        yield 'factors', {'Z': Z, 'mode': 'random', 'sample': ctx.scale(60, 400), 'seed': _seed(ctx)}
+        yield 'factors', {'Z': Z, 'mode': 'midpoints', 'sample': None if ctx.thorough() else 150, 'seed': _seed(ctx)}
+        yield 'factors', {'Z': Z, 'mode': 'random', 'sample': ctx.scale(100, 400), 'seed': _seed(ctx)}
         yield 'factors', {'Z': Z, 'mode': 'edges', 'sample': None if ctx.thorough() else 40, 'seed': _seed(ctx)}
         yield 'factors', {'Z': Z, 'mode': 'outside'}
         el = pt.elements[Z]
@@ -241,11 +241,11 @@ def generate(ctx):
             yield 'f0_atoms', {'Z': Z, 'seed': _seed(ctx)}
     if ctx.mine(1):
         yield 'f0_atoms', {'Z': 1, 'dt': True, 'seed': _seed(ctx)}
-    ncomp = ctx.scale(150, 1500)
+    ncomp = ctx.scale(500, 2500)
     for n in range(ncomp):
         # ions of D and T trigger the listed finding D28: bounded minority (4 %)
         yield 'compound', gen_compound(ctx.rng, dt=(n % 25 == 7))
-    for n in range(ctx.scale(40, 400)):
+    for n in range(ctx.scale(100, 500)):
         yield 'mirror', gen_mirror(ctx.rng)
 
 
@@ -395,7 +395,7 @@ def _point(ctx, bud, Z, e, g1, g2, how, ulps=8, atom=None):
                       % (who, how, e, g2, r.segment, r.segment + 1, r.f2), kind='f2', Z=Z, energy=e,
                       got=g2, want=r.f2)
     else:
-        ctx.observe('f2.relerr', abs(g2 - r.f2) / max(abs(r.f2), 1e-300))
+        ctx.observe('f2.err_over_bracket_scale', 1e-10 * abs(g2 - r.f2) / r.tol2)
     if r.f1_defined:
         ctx.evaluated(1, 'f1')
         if _isnan(g1) or not abs(g1 - r.f1) <= r.tol1:
@@ -403,7 +403,7 @@ def _point(ctx, bud, Z, e, g1, g2, how, ulps=8, atom=None):
                           % (who, how, e, g1, r.segment, r.segment + 1, r.f1), kind='f1', Z=Z, energy=e,
                           got=g1, want=r.f1)
         else:
-            ctx.observe('f1.abserr_over_scale', abs(g1 - r.f1) / max(r.tol1 / 1e-10, 1e-300) if r.tol1 else 0.0)
+            ctx.observe('f1.err_over_bracket_scale', 1e-10 * abs(g1 - r.f1) / r.tol1 if r.tol1 else 0.0)
     else:
         ctx.count('f1.unconstrained_next_to_missing')
 
@@ -434,7 +434,10 @@ def _sweep(ctx, bud, Z, atom, energies, how, scalar=True, wavelength=False):
                               kind='shape')
                 return 'shape'
             _point(ctx, bud, Z, e, float(s1), float(s2), how + ' (scalar call)', atom=name)
-            # scalar and vector calls agree
+            # scalar and vector calls agree (numpy.interp on a non-monotone abscissa is undefined and does
+            # differ between one point and many: not judged inside an excluded window)
+            if xr.table(Z).excluded(e):
+                continue
             ctx.evaluated(1, 'scalar_vs_vector')
             for sv, vv, f in ((float(s1), float(v1[i]), 'f1'), (float(s2), float(v2[i]), 'f2')):
                 if not ((sv != sv and vv != vv) or abs(sv - vv) <= 1e-12 * max(abs(sv), abs(vv))):
@@ -820,6 +823,9 @@ def check_compound(ctx, case):
             nv = xsf.index_of_refraction(obj, density=rho, **kw)
             r = xr.sld(comp, rho, E, ulps=64)
             if not r.inside or r.excluded:
+                continue
+            if not r.rho_defined:   # rho is NaN next to a missing f1 and complex arithmetic spreads it to both parts
+                ctx.count('refraction.unconstrained_next_to_missing_f1')
                 continue
             delta, beta = xr.refraction(r.rho, r.irho, wl)
             f = wl ** 2 / (2 * math.pi) * 1e-6
